@@ -51,6 +51,7 @@ import attrs
 
 from ..utils import ensure_trailing_newline
 from .base import BackendStatus, TrackingBackend
+from .exceptions import BackendError
 from .utils import call, has_exe
 
 logger = logging.getLogger(__name__)
@@ -203,7 +204,10 @@ class SlurmOps:
         args = ["--parsable"]
         if dependencies:
             args.append("--dependency=afterok:{}".format(":".join(dependencies)))
-        return call("sbatch", *args, input=script).strip()
+        job_id = call("sbatch", *args, input=script).strip()
+        if not job_id.split(";")[0].isdigit():
+            raise BackendError(f"Unexpected output from sbatch: {job_id!r}")
+        return job_id
 
     def get_job_states_from_squeue(self, tracked_jobs):
         logger.debug("Loading job states from squeue")
